@@ -22,3 +22,23 @@ type VerifSlotEvent = encoder.VerifSlotEvent
 
 // VerifSetSlotTracer installs (or, with nil, removes) the encoder slot tracer (single goroutine only).
 func VerifSetSlotTracer(f func(VerifSlotEvent)) { encoder.VerifSlotTracer = f }
+
+// VerifCacheEvent describes one return of the per-type program / decoder lookup.
+type VerifCacheEvent = encoder.VerifCacheEvent
+
+// VerifSetCacheTracer installs the return-event tracer for both caches (nil removes it).
+func VerifSetCacheTracer(f func(VerifCacheEvent)) {
+	encoder.VerifCacheTracer = f
+	if f == nil {
+		decoder.VerifCacheTracer = nil
+		return
+	}
+	decoder.VerifCacheTracer = func(e decoder.VerifCacheEvent) { f(VerifCacheEvent(e)) }
+}
+
+// VerifSetCacheGate installs a function called at the scheduling points of both cache lookups
+// ("lookup", "miss", "publish"); it may block.  Install before starting goroutines.
+func VerifSetCacheGate(f func(side, point string, typeptr uintptr)) {
+	encoder.VerifCacheGateFunc = f
+	decoder.VerifCacheGateFunc = f
+}
